@@ -1,1 +1,79 @@
-(* Props/C04.v -- stub, to be filled in *)
+(* Props/C04.v -- property theorems only: Theorem / exact lemma / Check (pins the statement) / Print Assumptions.
+   C04: a banded matrix behaves exactly like the dense matrix with the same band. *)
+From Coq Require Import List Arith ZArith QArith Qcanon Lia.
+From OV Require Import Base.Panic Base.Arith Model.Vector Model.Matrix Model.Banded Inst.QcInst Proofs.Banded.
+Import ListNotations.
+Local Open Scope nat_scope.
+
+(* ---- index map: in-band test, slot range, column recovered from the slot, injectivity ---- *)
+Theorem band_index_spec : forall m1 m2 i j : nat,
+  (in_band m1 m2 i j = true <-> (i <= j + m1 /\ j <= i + m2)) /\
+  (in_band m1 m2 i j = true -> band_slot m1 i j < m1 + m2 + 1 /\ j + m1 = i + band_slot m1 i j) /\
+  (forall j', in_band m1 m2 i j = true -> in_band m1 m2 i j' = true ->
+              band_slot m1 i j = band_slot m1 i j' -> j = j').
+Proof. exact band_index_spec_lemma. Qed.
+Check band_index_spec : forall m1 m2 i j : nat,
+  (in_band m1 m2 i j = true <-> (i <= j + m1 /\ j <= i + m2)) /\
+  (in_band m1 m2 i j = true -> band_slot m1 i j < m1 + m2 + 1 /\ j + m1 = i + band_slot m1 i j) /\
+  (forall j', in_band m1 m2 i j = true -> in_band m1 m2 i j' = true ->
+              band_slot m1 i j = band_slot m1 i j' -> j = j').
+Print Assumptions band_index_spec.
+Example band_index_spec_nonvacuous :
+  in_band 1 2 3 5 = true /\ in_band 1 2 3 2 = true /\ in_band 1 2 3 6 = false /\ in_band 1 2 3 1 = false /\
+  band_slot 1 3 5 = 3 /\ band_slot 1 3 2 = 0.
+Proof. repeat split. Qed.
+
+(* distinct in-band elements occupy distinct offsets inside the n x (m1+m2+1) buffer *)
+Theorem band_storage_spec : forall n m1 m2 i j i' j' : nat,
+  i < n -> i' < n -> in_band m1 m2 i j = true -> in_band m1 m2 i' j' = true ->
+  i * (m1 + m2 + 1) + band_slot m1 i j < n * (m1 + m2 + 1) /\
+  (i * (m1 + m2 + 1) + band_slot m1 i j = i' * (m1 + m2 + 1) + band_slot m1 i' j' -> i = i' /\ j = j').
+Proof. exact band_storage_spec_lemma. Qed.
+Check band_storage_spec : forall n m1 m2 i j i' j' : nat,
+  i < n -> i' < n -> in_band m1 m2 i j = true -> in_band m1 m2 i' j' = true ->
+  i * (m1 + m2 + 1) + band_slot m1 i j < n * (m1 + m2 + 1) /\
+  (i * (m1 + m2 + 1) + band_slot m1 i j = i' * (m1 + m2 + 1) + band_slot m1 i' j' -> i = i' /\ j = j').
+Print Assumptions band_storage_spec.
+Example band_storage_spec_nonvacuous : 2 < 4 /\ 3 < 4 /\ in_band 2 1 2 0 = true /\ in_band 2 1 3 4 = true.
+Proof. repeat split; auto. Qed.
+
+(* element access: the dense twin on the band, refused (panic) outside it *)
+Theorem band_get_dense : forall (A : Arith) (B : banded A) (i j : nat),
+  wfB B -> i < bn B -> j < bn B ->
+  band_get B i j = if in_band (bm1 B) (bm2 B) i j then Ok (dense_entry B i j) else Panic Guard.
+Proof. intros A B i j. exact (band_get_spec B i j). Qed.
+Check band_get_dense : forall (A : Arith) (B : banded A) (i j : nat),
+  wfB B -> i < bn B -> j < bn B ->
+  band_get B i j = if in_band (bm1 B) (bm2 B) i j then Ok (dense_entry B i j) else Panic Guard.
+Print Assumptions band_get_dense.
+
+(* ---- &B * &v = (dense twin) . v for all (n, m1, m2), and no padding slot is ever read ---- *)
+Theorem band_mul_spec : forall (A : Arith), RingLaws A -> forall (B : banded A) (v : list A),
+  wfB B -> length v = bn B ->
+  band_mul B v = Ok (dense_mulv B v) /\
+  forall B', same_in_matrix_slots B B' -> band_mul B' v = band_mul B v.
+Proof. intros A RL B v. exact (band_mul_spec_lemma RL B v). Qed.
+Check band_mul_spec : forall (A : Arith), RingLaws A -> forall (B : banded A) (v : list A),
+  wfB B -> length v = bn B ->
+  band_mul B v = Ok (dense_mulv B v) /\
+  forall B', same_in_matrix_slots B B' -> band_mul B' v = band_mul B v.
+Print Assumptions band_mul_spec.
+(* non-vacuity: a 3x3 band (m1 = 1, m2 = 1) over Qc with loud padding, and a second matrix that
+   differs from it exactly in the two padding slots *)
+Definition ex_B : banded AQ :=
+  @mkB AQ 3 1 1 (@mkM AQ [q 77 1; q 2 1; q (-1) 1;  q 1 1; q 0 1; q 3 1;  q (-4) 1; q 5 1; q (-13) 1] 3 3).
+Definition ex_B' : banded AQ :=
+  @mkB AQ 3 1 1 (@mkM AQ [q 0 1; q 2 1; q (-1) 1;  q 1 1; q 0 1; q 3 1;  q (-4) 1; q 5 1; q 1000 1] 3 3).
+Example band_mul_spec_nonvacuous :
+  RingLaws AQ /\ wfB ex_B /\ length ([q 1 1; q 2 1; q 3 1] : list AQ) = bn ex_B /\
+  same_in_matrix_slots ex_B ex_B' /\ compact ex_B' <> compact ex_B /\
+  @band_mul AQ ex_B [q 1 1; q 2 1; q 3 1] = Ok [q 0 1; q 10 1; q 7 1].
+Proof.
+  split; [exact AQ_RingLaws|]. split; [repeat split|]. split; [reflexivity|].
+  split.
+  - split; [repeat split|]. repeat split.
+    intros i j Hi Hj. cbn in Hi, Hj.
+    destruct i as [|[|[|i]]]; try lia; destruct j as [|[|[|j]]]; try lia; intros Hb; try discriminate Hb;
+      vm_compute; reflexivity.
+  - split; [intros E; discriminate E|]. vm_compute. reflexivity.
+Qed.
